@@ -1,4 +1,5 @@
 import Reclass.Props.C02
+import Reclass.Props.C02a
 open Reclass
 #print axioms Reclass.C02.mergeV_eq_mergeNonVl
 #print axioms Reclass.C02.merge_null_over
